@@ -40,12 +40,16 @@ PROPS["C16"] = dict(
     assumptions=["locations have at most 2 components with region, zone < 16", "keccak256 treated as an opaque function"],
 )
 
+def lockup_preamble(facts, impl):
+    return "cfg undoUsesOldDelegate %d\ncfg revertRestoresBatch %d\n" % (1 if facts.get("lockup_undo_uses_old_delegate") else 0, 1 if facts.get("revert_restores_lockup_batch") else 0)
+
 def state_preamble(facts, impl):
     return "cfg suicideRestoresSize %d\n" % (1 if facts.get("suicide_restores_size") else 0)
 
 PROPS["C12"] = dict(
     lean_modules=["QuaiVerif.Props.C12"],
-    areas=[dict(name="state", n_quick=3000, n_thorough=40000, seeds_thorough=3, n_search=2500, preamble=state_preamble)],
+    areas=[dict(name="state", n_quick=3000, n_thorough=40000, seeds_thorough=3, n_search=2500, preamble=state_preamble),
+           dict(name="lockup", n_quick=600, n_thorough=12000, seeds_thorough=2, n_search=2500, preamble=lockup_preamble)],
     facts=["suicide_restores_size", "journal_reverts"],
     rule="a case is a committed pre-state (accounts with balance/nonce/code/storage, so size counters > 0) plus 5-60 journalled mutator calls "
          "with nested Snapshot/RevertToSnapshot frames (depth <= 6) on the real StateDB; after each revert the full dump and the IntermediateRoot of a copy "
@@ -60,12 +64,13 @@ PROPS["C12"] = dict(
 
 PROPS["C05"] = dict(
     lean_modules=["QuaiVerif.Props.C05"],
-    areas=[dict(name="evm", n_quick=2500, n_thorough=40000, seeds_thorough=3, n_search=8000)],
+    areas=[dict(name="evm", n_quick=2500, n_thorough=40000, seeds_thorough=3, n_search=8000),
+           dict(name="c07", n_quick=2, n_thorough=12, seeds_thorough=2, n_search=6, timeout=3000)],
     facts=["etx_exits"],
     rule="a case is one real interpreter run: (etx/conv) a contract executing one ETX / CONVERT with generated destination, value, gas limit, tip/fee cap or gas "
          "price (incl. zero and near-2^256 values), balance around the total, ETX-cache length (incl. 65535..65537), valid/malformed/empty access-list blob, "
          "eligibility, PrimeTerminusNumber around every fork; (xcall) a top-level call to a foreign / own-zone-Qi address; (tree) a tree of "
-         "CALL/DELEGATECALL/CALLCODE/STATICCALL frames (depth <= 3) emitting ETXs and ending in STOP or REVERT. Every case is non-trivial; distinct by sub-seed",
+         "CALL/DELEGATECALL/CALLCODE/STATICCALL frames (depth <= 3) emitting ETXs and ending in STOP or REVERT. Every case is non-trivial; distinct by sub-seed. [c07, shared with C07] on real zone chains the outbound ETXs recorded in each transaction's receipt carry that transaction's hash as origin and are, in order, the non-reward ETXs the block commits to; assembler and validator agree on them",
     level_text="All-or-nothing of ETX / CONVERT / foreign call as Lean theorems over decision functions that follow the code's checks (uint256 arithmetic "
                "explicit), and 'outbound set = sends of non-reverted frames in order' by mutual induction over frame trees; exit discipline of the three Go "
                "functions is regenerated from source and checked by decide; the model is run against the real interpreter on generated contracts.",
@@ -173,9 +178,6 @@ PROPS["C20"] = dict(
                  "after the kQuai reset fork block difficulty exceeds KQuaiDifficultyDivisor (else CalculateQuaiReward is negative)"],
 )
 
-def lockup_preamble(facts, impl):
-    return "cfg undoUsesOldDelegate %d\ncfg revertRestoresBatch %d\n" % (1 if facts.get("lockup_undo_uses_old_delegate") else 0, 1 if facts.get("revert_restores_lockup_batch") else 0)
-
 PROPS["C13"] = dict(
     lean_modules=["QuaiVerif.Props.C13", "QuaiVerif.Props.C13b", "QuaiVerif.Props.C13c", "QuaiVerif.Props.C13d"],
     areas=[dict(name="lockup", n_quick=600, n_thorough=12000, seeds_thorough=3, n_search=2500, preamble=lockup_preamble), dict(name="c13chain", spec_ops=("tdisc", "split"), n_quick=4, n_thorough=40, seeds_thorough=3, n_search=10, timeout=3000),
@@ -196,14 +198,15 @@ PROPS["C13"] = dict(
 
 PROPS["C01"] = dict(
     lean_modules=["QuaiVerif.Props.C01"],
-    areas=[dict(name="utxo", n_quick=500, n_thorough=10000, seeds_thorough=3, n_search=2000)],
+    areas=[dict(name="utxo", n_quick=500, n_thorough=10000, seeds_thorough=3, n_search=2000),
+           dict(name="c07", n_quick=2, n_thorough=12, seeds_thorough=2, n_search=6, timeout=3000)],
     facts=["backends_track", "denominations"],
     rule="a case is one block of 1-6 Qi transactions over a UTXO set of 5-30 entries, processed by the real core.ProcessQiTx on one batch in pending mode on "
          "memorydb / leveldb / pebble, with real keys and Schnorr / MuSig2 signatures, each tx passed through the wire encoding first: mostly valid spends plus "
          "same outpoint twice in a tx / in two txs, spending outputs created earlier in the block, non-owner and Quai-ledger keys, locked entries (lock = height-1, "
          "height, height+1), bad denominations and merges, duplicate output addresses, non-zero output lock, conversion / wrapping / mixed data, foreign-zone outputs "
          "with eligible and ineligible slices and exhausted ETX limits, fee below the floor, tiny gas limits, wrong chain id, altered-after-signing, 19/21-byte "
-         "addresses, both sides of the wrapping fork and the conversion hold intervals; the final UTXO scan (after batch.Write or after dropping a rejected block) is compared",
+         "addresses, both sides of the wrapping fork and the conversion hold intervals; the final UTXO scan (after batch.Write or after dropping a rejected block) is compared. [c07, shared with C07] real zone chains whose pool is also handed Qi transactions naming one outpoint twice (signed by its key twice): the block the worker assembles must not consume any outpoint twice (read off the block itself) and must pass the node's own validation",
     level_text="'An accepted transaction names pairwise distinct, present, unlocked outpoints owned by the presented keys (signature verified when checked), "
                "outputs <= inputs, fee = difference', 'consumed outpoints are absent afterwards, nothing else changes', 'two transactions accepted on one batch "
                "consume disjoint outpoints' and the value equation inputs = local outputs + sent + converted + fee are Lean theorems over the ProcessQiTx model "
